@@ -257,13 +257,15 @@ Section EqChar.
   Qed.
 
   (* the converse direction of C01 enters as a hypothesis here; Props/C02.v instantiates it *)
-  Variable complete : forall a b, wf_node ct a = true -> wf_node ct b = true ->
+  (* [Good] = whatever side conditions the converse of C01 needs on the two trees *)
+  Variable Good : node -> Prop.
+  Variable complete : forall a b, Good a -> Good b -> wf_node ct a = true -> wf_node ct b = true ->
     cls a = cls b -> content_id H ct vr a = content_id H ct vr b -> ceq ct a b.
 
-  Theorem eq_char a b : wf_node ct a = true -> wf_node ct b = true ->
+  Theorem eq_char a b : Good a -> Good b -> wf_node ct a = true -> wf_node ct b = true ->
     (eqn H ct vr a b = EqTrue <-> cls a = cls b /\ ceq ct a b /\ origins_eq a b = true).
   Proof.
-    intros Wa Wb. split.
+    intros Ga Gb Wa Wb. split.
     - intros E.
       destruct (pystr_eqb_spec (cls a) (cls b)) as [Ec|Nc].
       2:{ unfold eqn in E. apply pystr_eqb_neq in Nc. rewrite Nc in E. discriminate. }
@@ -274,10 +276,10 @@ Section EqChar.
     - intros (_ & Hc & Ho). rewrite eq_of_ceq, Ho; auto.
   Qed.
 
-  Theorem eq_total a b : wf_node ct a = true -> wf_node ct b = true ->
+  Theorem eq_total a b : Good a -> Good b -> wf_node ct a = true -> wf_node ct b = true ->
     eqn H ct vr a b = EqTrue \/ eqn H ct vr a b = EqFalse.
   Proof.
-    intros Wa Wb.
+    intros Ga Gb Wa Wb.
     destruct (pystr_eqb_spec (cls a) (cls b)) as [Ec|Nc].
     - destruct (pystr_eqb_spec (content_id H ct vr a) (content_id H ct vr b)) as [Ed|Nd].
       + rewrite eq_of_ceq by (auto using complete). destruct (origins_eq a b); auto.
@@ -290,18 +292,18 @@ Section EqChar.
     intros W. rewrite eq_of_ceq by (auto using ceq_refl). unfold origins_eq. now rewrite forallb2_refl.
   Qed.
 
-  Theorem neq_negation a b : wf_node ct a = true -> wf_node ct b = true ->
+  Theorem neq_negation a b : Good a -> Good b -> wf_node ct a = true -> wf_node ct b = true ->
     (neqn H ct vr a b = EqTrue <-> eqn H ct vr a b = EqFalse) /\ (neqn H ct vr a b = EqFalse <-> eqn H ct vr a b = EqTrue).
   Proof.
-    intros Wa Wb. unfold neqn. destruct (eq_total a b Wa Wb) as [E|E]; rewrite E; split; split; congruence.
+    intros Ga Gb Wa Wb. unfold neqn. destruct (eq_total a b Ga Gb Wa Wb) as [E|E]; rewrite E; split; split; congruence.
   Qed.
 
   Theorem eq_other_class a b : cls a <> cls b -> eqn H ct vr a b = EqFalse.
   Proof. intros N. unfold eqn. apply pystr_eqb_neq in N. now rewrite N. Qed.
 
-  Theorem eq_sym a b : wf_node ct a = true -> wf_node ct b = true -> eqn H ct vr a b = eqn H ct vr b a.
+  Theorem eq_sym a b : Good a -> Good b -> wf_node ct a = true -> wf_node ct b = true -> eqn H ct vr a b = eqn H ct vr b a.
   Proof.
-    intros Wa Wb.
+    intros Ga Gb Wa Wb.
     destruct (pystr_eqb_spec (cls a) (cls b)) as [Ec|Nc].
     2:{ rewrite !eq_other_class; auto. }
     destruct (pystr_eqb_spec (content_id H ct vr a) (content_id H ct vr b)) as [Ed|Nd].
@@ -312,10 +314,10 @@ Section EqChar.
       assert (N2 : content_id H ct vr b <> content_id H ct vr a) by congruence. apply pystr_eqb_neq in N2. now rewrite N2.
   Qed.
 
-  Theorem eq_trans a b c : wf_node ct a = true -> wf_node ct b = true -> wf_node ct c = true ->
+  Theorem eq_trans a b c : Good a -> Good b -> Good c -> wf_node ct a = true -> wf_node ct b = true -> wf_node ct c = true ->
     eqn H ct vr a b = EqTrue -> eqn H ct vr b c = EqTrue -> eqn H ct vr a c = EqTrue.
   Proof.
-    intros Wa Wb Wc E1 E2.
+    intros Ga Gb Gc Wa Wb Wc E1 E2.
     apply eq_char in E1 as (C1 & H1 & O1); auto. apply eq_char in E2 as (C2 & H2 & O2); auto.
     apply eq_char; auto. split; [congruence|]. split.
     - apply complete; auto; [congruence|].
